@@ -363,6 +363,10 @@ func trimSegs(segs []int, n int) []int {
 	var out []int
 	rem := n
 	for _, s := range segs {
+		if s < 0 {
+			out = append(out, s)
+			return out
+		}
 		if s > rem {
 			s = rem
 		}
